@@ -127,7 +127,7 @@ SPECS["C12"] = dict(
          "sequence with ring writes that force growth; after every step all handed-out ranges are pairwise disjoint, inside what was returned, and their canaries intact; "
          "non-trivial = some Get was served from recycled memory (address seen before); distinct = distinct history/script",
     assumptions=["the harness keeps every slice it ever saw reachable, so the allocator cannot legitimately reuse an address", "sizes above 2^20 are covered arithmetically by C20, not by allocation"],
-    overlay=["verifx/c12", "verifx/vio"],
+    overlay=["verifx/c12", "verifx/vio", "verifx/fx"],
     jobs=[
         dict(name="c12", pkg="./verifx/c12", tests=[
             dict(id="fresh", run="^TestC12ByteSliceFresh$", quick=dict(shards=6, checks=2500, timeout=300, steps=40, env={"GOMAXPROCS": 2}),
@@ -140,6 +140,8 @@ SPECS["C12"] = dict(
                  thorough=dict(shards=6, checks=50000, timeout=1800, steps=80, env={"GOMAXPROCS": 2})),
             dict(id="ringpool", run="^TestC12RingPool$", quick=dict(shards=4, checks=2000, timeout=300, steps=40, env={"GOMAXPROCS": 2}),
                  thorough=dict(shards=6, checks=40000, timeout=1800, steps=60, env={"GOMAXPROCS": 2})),
+            dict(id="connpeek", run="^TestC12ConnPeekAndPools$", quick=dict(shards=4, checks=250, timeout=600, shrinktime=20),
+                 thorough=dict(shards=8, checks=12000, timeout=3400, shrinktime=120)),
         ]),
     ],
 )
